@@ -9,6 +9,14 @@ SPEC_OF = {
     "C10": "CommandsTrace", "C11": "CommandsTrace", "C12": "CommandsTrace",
     "C06": "RunStateTrace", "C07": "RunStateTrace", "C08": "RunStateTrace", "C09": "RunStateTrace", "C13": "RunStateTrace",
 }
+# property -> design spec (module, quick cfg, thorough cfg) model-checked by TLC in the check itself
+DESIGN_OF = {
+    "C06": ("RunState", "RunState.cfg", "RunStateDeep.cfg"), "C07": ("RunState", "RunState.cfg", "RunStateDeep.cfg"),
+    "C08": ("RunState", "RunState.cfg", "RunStateDeep.cfg"), "C09": ("RunState", "RunState.cfg", "RunStateDeep.cfg"),
+    "C13": ("RunState", "RunState.cfg", "RunStateDeep.cfg"),
+    "C10": ("Commands", "Commands.cfg", "Commands.cfg"), "C11": ("Commands", "Commands.cfg", "Commands.cfg"),
+    "C12": ("Commands", "Commands.cfg", "Commands.cfg"),
+}
 PROJECT = {"RunStateTrace": engcorpus.project_runstate, "CommandsTrace": engcorpus.project_commands}
 
 
@@ -19,7 +27,17 @@ def _validate(ctx, spec, corp):
     return {"verdicts": verdicts, "tstats": tstats, "ntraces": len(traces), "nevents": sum(len(t["ev"]) for t in traces)}
 
 
+def _design(ctx):
+    from .. import tlc
+    mod, q, t = DESIGN_OF[ctx.prop]
+    res = tlc.run_tlc(mod, q if ctx.quick else t, workers=8, timeout=1800)
+    if not res.ok:
+        raise core.MachineryFailure(f"design spec {mod} violates {res.violated}")
+    return {"module": mod, "states": res.distinct, "transitions": res.generated, "depth": res.depth}
+
+
 def run(ctx: core.Ctx) -> core.Outcome:
+    design_run = _design(ctx)
     corp = engcorpus.corpus(ctx)
     spec = SPEC_OF[ctx.prop]
     val, hit = core.cached("engverdict-" + spec, ctx, lambda: _validate(ctx, spec, corp))
@@ -40,7 +58,8 @@ def run(ctx: core.Ctx) -> core.Outcome:
         fams[r["family"]] = fams.get(r["family"], 0) + 1
     design = corp["design"].get("RunState", {})
     sample = corp["runs"][len(corp["runs"]) // 2]
-    cov = dict(states=design.get("states", 0), transitions=design.get("transitions", 0),
+    cov = dict(states=design_run["states"], transitions=design_run["transitions"], design_spec=design_run["module"],
+               design_depth=design_run["depth"], replay_graph_states=design.get("states", 0),
                traces_validated_against_impl=val["ntraces"], events_validated=val["nevents"], runs_by_family=fams,
                graph_edges=design.get("edges", 0), corpus_from_cache=corp["from_cache"], verdict_from_cache=hit, **val["tstats"],
                samples=[{"method": sample["method"], "steps": sample["steps"][:12]}])
